@@ -4,7 +4,8 @@
 //! case line:  ctl.s|ctl.c g=<0|1> cr=<uni credits at start> b=<u|n default write budget> ev=<e1,e2,...>
 //! events are those of `simquic::apply_event` plus `P` = poll the driver task once (only explicit polls,
 //! no wakers: the interleaving of arrivals and polls is exactly the one written in the case).
-//! result:  <pending | ok none | err c:<code>:<variant>> at=<poll number at which the driver finished|->
+//! (a server's accept() is called again at the next poll after it answered None)
+//! result:  <pending | ok none | err c:<code>:<variant>> at=<poll number at which that result first appeared|->
 //!          ph=<build|run> close=<first close code|-> stops=<id:code;...|-> opened=<n> fins=<n>
 //!          set=<dg><ec><wt>|- closing=<0|1|-> req=<closing|ok|pending|-|err..>
 //!          handed=<frames poll_control returned to the driver: S, G<id>, C<id>, M<id> joined by '.'|->
@@ -19,6 +20,20 @@ use std::sync::Arc;
 type SrvConn = h3::server::Connection<SimConn, Bytes>;
 type CliConn = h3::client::Connection<SimConn, Bytes>;
 type CliSend = h3::client::SendRequest<SimOpener, Bytes>;
+
+/// `YieldOnce(false).await` returns Pending once: the rest of the task runs at the next poll.
+struct YieldOnce(bool);
+impl std::future::Future for YieldOnce {
+    type Output = ();
+    fn poll(mut self: std::pin::Pin<&mut Self>, _cx: &mut std::task::Context<'_>) -> std::task::Poll<()> {
+        if self.0 {
+            std::task::Poll::Ready(())
+        } else {
+            self.0 = true;
+            std::task::Poll::Pending
+        }
+    }
+}
 
 fn kv<'a>(ws: &'a [&'a str], key: &str) -> &'a str {
     for w in ws {
@@ -51,9 +66,10 @@ fn run_case(ws: &[&str]) -> String {
     let keep_s: Rc<RefCell<Option<SrvConn>>> = Rc::new(RefCell::new(None));
     let keep_c: Rc<RefCell<Option<CliConn>>> = Rc::new(RefCell::new(None));
     let sender: Rc<RefCell<Option<CliSend>>> = Rc::new(RefCell::new(None));
+    let status: Rc<RefCell<String>> = Rc::new(RefCell::new("pending".to_string()));
 
     let t = if server {
-        let (w2, sh, keep) = (w.clone(), shared.clone(), keep_s.clone());
+        let (w2, sh, keep, st) = (w.clone(), shared.clone(), keep_s.clone(), status.clone());
         ex.spawn(async move {
             let mut b = h3::server::builder();
             b.send_grease(grease);
@@ -62,10 +78,17 @@ fn run_case(ws: &[&str]) -> String {
                 Err(e) => return format!("err {} build", conn_err(&e)),
             };
             *sh.borrow_mut() = Some(conn.inner.shared.clone());
-            let r = match conn.accept().await {
-                Ok(Some(_)) => "ok some".to_string(),
-                Ok(None) => "ok none".to_string(),
-                Err(e) => format!("err {}", conn_err(&e)),
+            // accept() is called again (at the next poll) after it answered None: the server stays observable
+            // after a GOAWAY; the second shutdown(0) inside accept() is a no-op
+            let r = loop {
+                match conn.accept().await {
+                    Ok(Some(_)) => break "ok some".to_string(),
+                    Ok(None) => {
+                        *st.borrow_mut() = "ok none".to_string();
+                        YieldOnce(false).await;
+                    }
+                    Err(e) => break format!("err {}", conn_err(&e)),
+                }
             };
             // keep the connection alive: dropping it would log a close(H3_NO_ERROR) of the harness' own making
             *keep.borrow_mut() = Some(conn);
@@ -90,21 +113,26 @@ fn run_case(ws: &[&str]) -> String {
 
     let mut polls = 0u64;
     let mut done_at: Option<u64> = None;
+    let mut res = "pending".to_string();
     for ev in &evs {
         if *ev == "P" {
             polls += 1;
-            if !ex.done(t) && ex.poll(t) {
+            if !ex.done(t) {
+                ex.poll(t);
+            }
+            // the poll at which the present result was first returned
+            let cur = match ex.result(t) {
+                Some(r) => r.clone(),
+                None => status.borrow().clone(),
+            };
+            if cur != res {
+                res = cur;
                 done_at = Some(polls);
             }
         } else if !apply_event(&w, ev) {
             return format!("driver-error bad-event {}", ev);
         }
     }
-
-    let res = match ex.result(t) {
-        Some(r) => r.clone(),
-        None => "pending".to_string(),
-    };
     let (close, stops, opened, fins) = {
         let g = w.lock().unwrap();
         let close = g.closed.as_ref().map(|c| c.0.to_string()).unwrap_or_else(|| "-".into());
